@@ -51,7 +51,7 @@ w('GF_twin_stop.cfg', space='TwinStopCfgs', runs='"A", "B"', maxiter=2, extra=TW
 w('GF_q_twin_stop.cfg', space='QTwinStopCfgs', runs='"A", "B"', maxiter=2, maxval=3, extra=TW)
 w('GF_twin_obs.cfg', space='TwinObsCfgs', runs='"A", "B"', maxiter=2, extra=TW)
 w('GF_q_twin_obs.cfg', space='QTwinObsCfgs', runs='"A", "B"', maxiter=2, maxval=3, extra=TW)
-w('GF_twin_hist.cfg', space='TwinHistCfgs', runs='"A", "B", "C"', maxiter=2, extra=TW)
+w('GF_twin_hist.cfg', space='TwinHistCfgs', runs='"A", "B", "C"', maxiter=2, maxval=3, extra=TW)
 w('GF_q_twin_hist.cfg', space='QTwinHistCfgs', runs='"A", "B", "C"', maxiter=2, maxval=3, extra=TW)
 w('GF_w_F8.cfg', space='QTwinStopCfgs', runs='"A", "B"', maxiter=2, maxval=3, extra=TW, faithful='"F8"')
 w('GF_sim.cfg', space='SimCfgs', maxiter=5, maxval=5, maxf=2)
